@@ -158,7 +158,7 @@ def unconfirmed_key(doc):
 def run(ctx: core.Run):
     t0 = time.time()
     tables = ctx.regenerate(extract_c01.gen_codec) or {}     # a reshaped source is a broken tie, never exit 2
-    ctx.prove(["PsdVerif.Props.C03"])
+    ctx.prove(["PsdVerif.Props.C03", "PsdVerif.Props.C03Pixels"])
     ctx.trusted_base += [
         "Lean 4.33 kernel; axioms allowed: propext, Classical.choice, Quot.sound (audited per theorem)",
         "Model/Walker.lean: my transcription of the Adobe Photoshop File Formats Specification (sources and the three "
@@ -311,7 +311,8 @@ def run(ctx: core.Run):
     ctx.model_coverage = {
         "walked by length only (opaque)": ["tagged-block data", "image-resource data", "mask data / blending ranges interiors",
                                            "channel data", "image data"],
-        "checked in Python only": ["merged image size vs header (raw, RLE row table, zip)", "layer channel RLE row tables"],
+        "proved on the composed models (Props/C03Pixels.lean) and checked in Python on real files": [
+            "merged image RLE row table (channels*height entries)", "layer channel RLE row tables", "channel lengths vs stored data"],
     }
     ctx.notes += [
         "walker_accepts is partial: it needs SpecShaped (even-length tagged blocks in layer records; in a PSB no key outside "
@@ -321,15 +322,24 @@ def run(ctx: core.Run):
         "absent from the Adobe text but stored with 8-byte lengths in fixtures (evidence re-checked by this run).",
         "C03/merged-image/plane-count-mismatch-after-edit is C17's defect (PSDImage.save after a structural edit of an RGB "
         "document stores 4 planes in a 3-channel file); it is registered as known here only for the edit-then-save scenario.",
-        "Stated in DESIGN, not proved here: lengths_truthful (every region delimits exactly the encoding of the sub-value), "
-        "rle_rowtable_sums and merged_planes (C04/C17; checked in Python on files with real pixel data).",
+        "Now theorems (Props/C03Pixels.lean, composing the C03/C04/C05/C17 models): rle_rowtable_shape (+ rle_rows_expand, "
+        "channel_set_data_rle, image_set_data_rle: exactly h / channels*h big-endian entries of 2|4 bytes, entry i = size of the "
+        "PackBits row i, sum = compressed size - table, rows expand to rowSize bytes), channel_length_is_stored_size and "
+        "walker_channel_boundaries (ChannelInfo.length = 2 + stored data after _update_channel_length; the walker's channel "
+        "steps delimit exactly compression ++ data and land on the next channel), sections_add_up, lengths_truthful (the walker "
+        "reports exactly the regions of fileSpans and each delimits the encoding of its sub-value), prefix_* (every length "
+        "prefix = size of what follows up to the documented padding), merged_rle_table (channels*height entries after an "
+        "edit-then-save with RLE). The Python readings of row tables / plane counts in c03_extra.py remain as the search oracle.",
+        "lengths_truthful carries the hypotheses of walker_accepts (WF, SpecShaped; witness lengths_truthful_needs_shape); "
+        "rle_rows_expand carries the row geometry of C04 (witness rle_short_raster_row); channel_length_is_stored_size carries "
+        "LayerInfo.WF (witness channel_length_stale_without_data: zip semantics leave a stale length on a channel info without data).",
     ]
     # ------------------------------------------------------------------ widened entry points and oracles (c03_extra.py)
     import c03_extra
     c03_extra.run_extra(ctx, tables, fx_all, jobs, answers)
     ctx.extra["phase_seconds"] = round(time.time() - t0, 1)
     if ctx.tier == "thorough":
-        ctx.recheck(["PsdVerif.Props.C03"])
+        ctx.recheck(["PsdVerif.Props.C03", "PsdVerif.Props.C03Pixels"])
     # ---- the written-count clause on type-directed payload variants; more writer entry points (deep documents with
     # re-encoded channels, documents with extra channels edited then saved)
     __import__("payload_gen").run_c03(ctx)
